@@ -36,6 +36,14 @@ MUTANTS = [
     ("tagged-remainder-sign-fixup-wrong", "C15", "tagged.Remainder", "mypyc/lib-rt/CPy.h", "if (((Py_ssize_t)right < 0) != ((Py_ssize_t)left < 0) && result != 0) {\n            result += right;", "if (((Py_ssize_t)right < 0) && result != 0) {\n            result += right;", "violation"),
     ("int64-remainder-edge-case-dropped", "C15", "fixed.CPyInt64_Remainder", "mypyc/lib-rt/int_ops.c", "    // Edge case: avoid core dump\n    if (y == -1 && x == INT64_MIN) {\n        return 0;\n    }\n    int64_t d = x % y;", "    int64_t d = x % y;", "violation"),
     ("int32-divide-rounding-dropped", "C15", "fixed.CPyInt32_Divide", "mypyc/lib-rt/int_ops.c", "int32_t CPyInt32_Divide(int32_t x, int32_t y) {", "int32_t CPyInt32_Divide(int32_t x, int32_t y) {\n    if (x == 7 && y == -2) return -3;", "violation"),
+    ("codec-cachemeta-reads-swapped", "C11", "CacheMeta", "mypy/cache.py", "                mtime=read_int(data),\n                size=read_int(data),", "                size=read_int(data),\n                mtime=read_int(data),", "violation"),
+    ("codec-instance-drops-last-known-value", "C11", "types.Instance", "mypy/types.py", "        write_type_opt(data, self.last_known_value)\n        if self.extra_attrs is None:", "        write_type_opt(data, None)\n        if self.extra_attrs is None:", "violation"),
+    ("codec-typevar-variance-not-written", "C11", "types.TypeVarType", "mypy/types.py", "        self.default.write(data)\n        write_int(data, self.variance)\n        write_tag(data, END_TAG)\n\n    @classmethod\n    def read(cls, data: ReadBuffer) -> TypeVarType:", "        self.default.write(data)\n        write_int(data, 0)\n        write_tag(data, END_TAG)\n\n    @classmethod\n    def read(cls, data: ReadBuffer) -> TypeVarType:", "violation"),
+    ("codec-union-new-slot-not-serialized", "C11", "types.UnionType", "mypy/types.py", '    __slots__ = (\n        "items",\n        "is_evaluated",', '    __slots__ = (\n        "items",\n        "origin_module",\n        "is_evaluated",', "violation"),
+    ("codec-str-opt-list-reader-uses-str-list", "C11", "types.CallableType|Parameters", "mypy/cache.py", "    assert read_tag(data) == LIST_GEN\n    size = read_int_bare(data)\n    return [read_str_opt(data) for _ in range(size)]", "    assert read_tag(data) == LIST_GEN\n    size = read_int_bare(data)\n    return [read_str(data) for _ in range(size)]", "violation"),
+    ("codec-read-type-dispatch-swapped", "C11", "static", "mypy/types.py", "    if tag == UNION_TYPE:\n        return UnionType.read(data)", "    if tag == UNION_TYPE:\n        return TupleType.read(data)", "violation"),
+    ("codec-var-flag-order-swapped", "C11", "nodes.Var", "mypy/nodes.py", "            v.is_initialized_in_class,\n            v.is_staticmethod,\n            v.is_classmethod,", "            v.is_initialized_in_class,\n            v.is_classmethod,\n            v.is_staticmethod,", "violation"),
+    ("codec-state-dep-hashes-as-line-map", "C07", "State", "mypy/build.py", "            dep_line_map=dep_line_map,\n            dep_hashes=dep_hashes,\n            error_lines=[],", "            dep_line_map=priorities,\n            dep_hashes=dep_hashes,\n            error_lines=[],", "violation"),
     ("enabled-parent-check-dropped", "C13", "is_error_code_enabled", "mypy/errors.py", "elif error_code.sub_code_of is not None and error_code.sub_code_of in current_mod_disabled:\n            return False", "elif error_code.sub_code_of is not None and error_code.sub_code_of in current_mod_enabled:\n            return False", "violation"),
 ]
 
